@@ -143,5 +143,5 @@ def cases(tier, seed):
             c = dict(c, nbytes=min(20, c["nbytes"]))
         yield c
         seen += 1
-        if "|" not in c["label"] or seen % 5 == 0 or tier != "quick":
+        if "|" not in c["label"] or seen % 5 == 0:
             yield dict(c, make="make_kinds", label=c["label"] + "#kinds", nbytes=min(12, c["nbytes"]))
